@@ -294,3 +294,31 @@ Fixpoint oper_barriers (o : oper) (senders : list N) (id : N) : oper * list N :=
   | [] => (o, [])
   | x :: t => let '(o1, r) := oper_barrier o x id in let '(o2, rs) := oper_barriers o1 t id in (o2, r :: rs)
   end.
+
+(* ---------- the operator's keyed state across redeployments (workers/operator: HandleDeploy opens a fresh DKV from
+   the checkpoints of the request, or an empty one). The state is the list of keys applied since the empty state; a
+   counting handler sees, for every event, how often its key was applied before. *)
+Inductive sop :=
+| SEv (k : N)                 (* a keyed event; observed: the count the handler is given for k *)
+| SCkpt                       (* barriers from all runners: the operator checkpoints and acks; observed: the id acked *)
+| SRedeploy (from : N).       (* HandleDeploy restoring checkpoint [from] (0 = the request carries no checkpoint) *)
+Record ost := MkOst { applied : list N; snaps : list (N * list N); next_id : N }.
+Definition ost0 : ost := MkOst [] [] 1.
+Definition count (k : N) (l : list N) : N := N.of_nat (length (filter (N.eqb k) l)).
+Fixpoint snap_get (id : N) (l : list (N * list N)) : option (list N) :=
+  match l with
+  | [] => None
+  | (i, x) :: t => if i =? id then Some x else snap_get id t
+  end.
+Definition sstep (s : ost) (o : sop) : ost * N :=
+  match o with
+  | SEv k => (MkOst (applied s ++ [k]) (snaps s) (next_id s), count k (applied s))
+  | SCkpt => (MkOst (applied s) ((next_id s, applied s) :: snaps s) (next_id s + 1), next_id s)
+  | SRedeploy from =>
+      (MkOst (match snap_get from (snaps s) with Some l => l | None => [] end) (snaps s) (next_id s), 0)
+  end.
+Fixpoint srun (s : ost) (l : list sop) : ost * list N :=
+  match l with
+  | [] => (s, [])
+  | o :: t => let '(s1, b) := sstep s o in let '(s2, bs) := srun s1 t in (s2, b :: bs)
+  end.
